@@ -1419,19 +1419,12 @@ func (fc *funcContext) translateImplicitConversion(expr ast.Expr, desiredType ty
 }
 
 // isFreshValue reports whether the expression yields an array or struct value that nothing
-// else refers to: a composite literal or the result of a function call (a conversion T(x) is
-// a call syntactically, but yields x itself).
+// else refers to: a composite literal. (The result of a function call is not fresh: a
+// function returns the object of the variable it names in its return statement, and the
+// copy is up to the caller.)
 func (fc *funcContext) isFreshValue(expr ast.Expr) bool {
-	switch e := astutil.RemoveParens(expr).(type) {
-	case *ast.CompositeLit:
-		return true
-	case *ast.CallExpr:
-		if tv, ok := fc.pkgCtx.Types[e.Fun]; ok && tv.IsType() {
-			return false
-		}
-		return true
-	}
-	return false
+	_, isComposite := astutil.RemoveParens(expr).(*ast.CompositeLit)
+	return isComposite
 }
 
 func (fc *funcContext) translateConversionToSlice(expr ast.Expr, desiredType types.Type) *expression {
